@@ -118,9 +118,10 @@ func readTree(fs afero.Fs) (Tree, error) {
 }
 
 var hostileNames = []string{"a", "b", "file with spaces", "ünïcödé-名前", "..dots..", "-leading-dash", "true", "~", "1e3", "null", "x.yaml", "#hash", "a:b", "q'uote", "tab\there",
-	"UPPER", "x.conflicts", ".datamonx", "very-long-name-" + strings.Repeat("z", 120), "0", "%41", "[brackets]", "star*", "back\\slash", "semi;colon", "eq=sign", "at@sign", "plus+", "comma,"}
+	"UPPER", "x.conflicts", ".datamonx", "very-long-name-" + strings.Repeat("z", 120), "0", "%41", "[brackets]", "star*", "back\\slash", "semi;colon", "eq=sign", "at@sign", "plus+", "comma,",
+	" lead", "trail ", "trail", "nbsp\u00a0", "\u3000wide", "cr\r"}
 
-var hostileDirs = []string{"d", "dir with space", "ünï", "a/.datamon", "deep/er/and/deeper", "x.checkpoints", "-d", "true", "d.d", "conflicts", "a/.conflicts", "sub/.checkpoints"}
+var hostileDirs = []string{"d", "dir with space", "dir ", " dir", "ünï", "a/.datamon", "deep/er/and/deeper", "x.checkpoints", "-d", "true", "d.d", "conflicts", "a/.conflicts", "sub/.checkpoints"}
 
 // drawTree draws n regular files (never a generated path) with sizes 0..3 leaves and duplicated contents.
 func drawTree(t *simkit.Tape, n int, leaf uint32, salt string) Tree {
